@@ -216,11 +216,26 @@ func (p Parents) Known(n ast.Node, stop ast.Node) []Cond {
 			}
 		case *ast.CaseClause:
 			// switch { case c: } => c holds (single expr); switch tag { case v: } => tag == v
-			if sw, ok := p[p[s]].(*ast.SwitchStmt); ok && len(s.List) == 1 && isStmtOf(child, s.Body) {
+			if sw, ok := p[p[s]].(*ast.SwitchStmt); ok {
+				if len(s.List) == 1 && isStmtOf(child, s.Body) {
+					if sw.Tag == nil {
+						Split(s.List[0], true, s, &out)
+					} else {
+						Split(&ast.BinaryExpr{X: sw.Tag, Op: token.EQL, Y: s.List[0]}, true, s, &out)
+					}
+				}
+				// the conditions of all earlier clauses of a tagless switch were false
+				// (also while this clause's own condition is being evaluated)
 				if sw.Tag == nil {
-					Split(s.List[0], true, s, &out)
-				} else {
-					Split(&ast.BinaryExpr{X: sw.Tag, Op: token.EQL, Y: s.List[0]}, true, s, &out)
+					for _, prev := range sw.Body.List {
+						pc := prev.(*ast.CaseClause)
+						if pc == s {
+							break
+						}
+						for _, e := range pc.List {
+							Split(e, false, pc, &out)
+						}
+					}
 				}
 			}
 		}
